@@ -5,9 +5,10 @@ patch applies and builds, baseline suite passes with it, the demonstration passe
 fails with it, and which of our checks report a violation on it."""
 import json, os, re, shutil, subprocess, sys, glob
 
-EVAL = '/tmp/eval'
+EVAL = sys.argv[1] if len(sys.argv) > 1 else '/tmp/eval'
 OUT = '/verif/seeded'
-agents = '/tmp/agents-out'
+agents = sys.argv[2] if len(sys.argv) > 2 else '/tmp/agents-out'
+WAVE = sys.argv[3] if len(sys.argv) > 3 else ''
 rows = []
 for txt in sorted(glob.glob(EVAL + '/C*_?.txt')):
     name = os.path.basename(txt)[:-4]          # C07_a
@@ -28,7 +29,7 @@ for txt in sorted(glob.glob(EVAL + '/C*_?.txt')):
     classes = re.findall(r'class: (\S+)', t)
     details = re.findall(r'detail: (.*)', t)
     readme = open(os.path.join(d, 'README.md')).read() if os.path.exists(os.path.join(d, 'README.md')) else ''
-    sid = '%s-%s' % (prop, x)
+    sid = '%s-%s%s' % (prop, WAVE, x)
     dst = os.path.join(OUT, sid)
     keep = ok_without and fail_with and suite_ok and os.path.exists(diff)
     rows.append((sid, keep, ok_without, fail_with, suite_ok, checks, classes))
@@ -69,3 +70,17 @@ for txt in sorted(glob.glob(EVAL + '/C*_?.txt')):
 print('%-8s %-5s %-8s %-8s %-6s %s' % ('id', 'keep', 'demo-ok', 'demo-fail', 'suite', 'checks'))
 for r in rows:
     print('%-8s %-5s %-8s %-8s %-6s %s %s' % (r[0], r[1], r[2], r[3], r[4], {k: v['exit'] for k, v in r[5].items()}, sorted(set(r[6]))[:3]))
+
+# summary table of everything under seeded/
+lines = ['# Seeded changes', '',
+         'Each directory holds one change to FluuxIO/go-xmpp written by an independent sub-agent (given only the text of',
+         'one property and a scratch worktree), its demonstration, and `meta.json` (what was confirmed and which check',
+         'reports it). Regenerate with `importseeded.py` after `evalmutant.sh` runs.', '',
+         '| id | breaks | detected by | violation classes reported (first 3) |', '|---|---|---|---|']
+for d in sorted(os.listdir(OUT)):
+    mp = os.path.join(OUT, d, 'meta.json')
+    if not os.path.exists(mp):
+        continue
+    m = json.load(open(mp))
+    lines.append('| %s | %s | %s | %s |' % (m['id'], m['breaks_property'], ', '.join(m['detected_by']) or '**not detected**', ', '.join(m['violation_classes_reported'][:3])))
+open(os.path.join(OUT, 'README.md'), 'w').write('\n'.join(lines) + '\n')
